@@ -157,8 +157,8 @@ CHECKS['C10'] = dict(
 
 CHECKS['C11'] = dict(
     title='--ansi strips escape sequences only and colours the right characters',
-    rule='(i) arbitrary bytes biased to ESC [ ] ( ) \\\\ ; : ? digits m K BEL BS SO SI LF, multi-byte and invalid UTF-8: stripped text == specification regex, spans well-formed; '
-         '(ii) grammar: text chunks interleaved with well-formed SGR (16/256/24-bit colours, attributes, resets, several parameters), OSC-8 open/close (ST and BEL), other CSI/ESC/charset sequences, SO/SI, struck-out characters, '
+    rule='(i) arbitrary bytes biased to ESC [ ] ( ) \\\\ ; : ? digits m K BEL BS SO SI LF, multi-byte and invalid UTF-8, and fragment sequences with the edge characters of every class of the specification (0x1f 0x20 0x7e 0x7f 0x80, @ ` { /): stripped text == specification regex, spans well-formed; '
+         '(ii) grammar: text chunks interleaved with well-formed SGR (16/256/24-bit colours, attributes, resets, several parameters), OSC-8 open/close (ST and BEL, URIs over all printable ASCII), other OSC sequences with printable payloads, other CSI/ESC/charset sequences, SO/SI, struck-out characters, '
          '1-3 consecutive lines carrying the state over: per-character (fg,bg,attr,url) == SGR interpreter. non-trivial = >=2 sequences and a text chunk after a sequence',
     assumptions=['the stripping specification is the regular expression quoted in src/ansi.go plus the hyperlink terminator ESC]8;;ESC emitted by fzf itself',
                  'only well-formed SGR parameters from the documented set are generated for the colouring equality (no empty sub-parameters, no mixed ; and : separators)'],
@@ -200,7 +200,7 @@ CHECKS['C17'] = dict(
     rule='(i) bind AST: 1-4 key:action-list pairs, keys from the documented list incl. the escaped , : + forms, 26 argument-taking and 14 plain actions, arguments over an alphabet made of every delimiter character, + , : quotes newline, '
          '16 delimiter forms + trailing-colon form under the documented restriction: parsed keymap == AST, same AST through another delimiter form gives the same keymap, K:X then K:+Y == K:X+Y; '
          '(ii) argv of 0-6 tokens from the option vocabulary scraped from the usage text with valid/boundary/garbage values: error xor options, no panic, repeatable; '
-         '(iii) last-wins for 36 valued options; (iv) file < env < argv layering equals the flat parse; (v) sub-parsers on hostile strings. '
+         '(iii) last-wins for 36 valued options and, with context options, for the whole vocabulary; (iii-b) no residue: 17 probe command lines parse to the same configuration (deep snapshot following pointers) after generated parses as before the first one; (iv) file < env < argv layering equals the flat parse; (v) sub-parsers on hostile strings. '
          'non-trivial = an argument containing a delimiter/+/,/: or chained actions (bind), >=2 tokens (argv), two different values (last-wins)',
     assumptions=['--expect and --color are documented to accumulate and are excluded from last-wins', 'file-touching options get relative paths inside the per-run work directory'],
     units=[
@@ -265,7 +265,7 @@ CHECKS['C08'] = dict(
 
 CHECKS['C13'] = dict(
     title='Loading and searching run concurrently without interfering',
-    rule='(a) a loader goroutine appending 50-2500 items with generated yield points while 1-8 snapshots (with/without --tail) are taken and scanned in 1-32 partitions with a shared cache: every snapshot is a contiguous frozen run of the input, '
+    rule='(a) a loader goroutine appending 50-2500 items with generated yield points while 1-8 snapshots (with/without --tail) are taken and scanned (sorted) in 1-32 partitions with a shared cache, the number of matching lines (0-30 of 100) and their relevance varying from chunk to chunk: every snapshot is a contiguous frozen run of the input, '
          'its items never change, every search equals the sequential filter of its snapshot; (b) exhaustive: a superseding request injected (hook) after the k-th counted chunk for every k, lists of 1..6 (quick) / 1..12 (thorough) chunks, partitions {1,3,32}, 8 query pairs: '
          'the superseded search publishes nothing, the published list is the filter of the superseding request; (c) EventBox hand-off with 1-3 producers. Thorough tier runs (a)-(c) under the Go race detector. '
          'non-trivial = a snapshot taken while the last chunk was partially filled (a); a cancellation strictly inside the scan (b)',
@@ -291,7 +291,7 @@ CHECKS['C09'] = dict(
 CHECKS['C14'] = dict(
     title='The UI never crashes or hangs and always leaves terminal and system clean',
     rule='live sessions (tmux): items with wide/combining/control/invalid characters, empty, 100k-character and multi-line records x layout/border/margin/padding/height/info/header/preview/preview-window/wrap/gap/misc options x windows from 1x1 to 220x70 '
-         'x histories of 3-25 steps (every bindable action without argument scraped from the option parser, 50 actions with arguments, raw key bytes incl. truncated escape sequences, SGR/X10 mouse reports inside and outside the window, bracketed paste, invalid UTF-8, resizes) '
+         'x histories of 3-25 steps (every bindable action without argument scraped from the option parser, 50 actions with arguments, raw key bytes, bursts ending at any prefix of 50 xterm key/mouse/paste sequences or with one wrong byte, SGR/X10 mouse reports inside and outside the window, bracketed paste, invalid UTF-8, resizes) '
          'x exit by accept / abort / SIGTERM / SIGINT, also while a preview or reload command is running. Oracle: fzf keeps answering after every step, no panic, exit status in {0,1,130}, stty settings restored, every private terminal mode switched on is switched off, '
          'no alternate screen / mouse mode left, TMPDIR empty, no child process alive. non-trivial = a window narrower than 20 columns or shorter than 6 rows at some point, or a child command alive at exit',
     assumptions=['tmux 3.3a is the terminal; liveness is judged by GET answering within 30 s'],
@@ -304,11 +304,11 @@ CHECKS['C14'] = dict(
 
 CHECKS['C15'] = dict(
     title='The screen shows the actual state',
-    rule='live sessions (tmux capture-pane vs GET state after every step): 0-70 printable ASCII lines (short / medium / longer than the window / with runs of blanks) x window 24-90 x 8-24 x 3 layouts x info default/inline/hidden x --multi x --header (0-2 lines) x --header-lines (0-2) x --header-first x sort on/off, '
-         'explicit ASCII pointer/marker/ellipsis; histories of 3-25 POSTs (navigation, page, pos, selection actions, query edits). Oracle: one prompt row = prompt + query; info shows matched/total (and selected with --multi); '
+    rule='live sessions (tmux capture-pane vs GET state after every step): 0-70 lines (short / medium / longer than the window / with runs of blanks / with e-acute) x window 24-130 x 8-24 x 3 layouts x --multi x --header (0-2 lines) x --header-lines (0-2) x --header-first x sort on/off, '
+         'explicit ASCII pointer/marker/ellipsis; info styles default/inline/hidden/inline-right/right; histories of 3-25 steps (navigation, page, pos, selection actions, query edits, query-cursor moves, change-prompt, change-header, reloads, window resizes). Oracle: every reported result line equals the input line of its index; one prompt row = prompt + query; info shows matched/total (and selected with --multi); '
          'list rows form one contiguous block of consecutive ranks in the direction of the layout, contain the current item, pointer exactly on the current item, marker exactly on selected items, text complete when it fits else cut with the ellipsis and a piece of the line, no row wider than the window; '
          'every header line exactly once and never inside the list; hidden results only when no row is left empty. non-trivial = a step that changed only some rows (cursor move / toggle) with a truncated line or more lines than rows',
-    assumptions=['--no-hscroll, --no-scrollbar, --color=bw and an ASCII pointer/marker/ellipsis are set so that the captured text can be parsed exactly; wide-character width bounds are covered by the C14 sessions (no row wider than the pane is not asserted there)',
+    assumptions=['--no-scrollbar, --color=bw and an ASCII pointer/marker/ellipsis are set so that the captured text can be parsed exactly; lines are ASCII plus the single-width letter e-acute (folded to a one-byte stand-in on both sides); horizontal scrolling is on in a third of the sessions (long lines are built from tokens unique to the line, so any visible piece identifies it); double-width characters are only covered by the C14 sessions (no exact comparison there)',
                  'the exact row of header lines is not asserted (layout-specific), only that they are shown once and outside the list'],
     units=[
         U('proc', 'TestVerifC15_Sessions', q(320, 16, cap=900), q(6400, 16, cap=3000), needs_fzf=True),
@@ -316,9 +316,9 @@ CHECKS['C15'] = dict(
 
 CHECKS['C20'] = dict(
     title='The preview always catches up with the focused line',
-    rule='live sessions (tmux) with an instrumented preview command that logs its pid and arguments, prints a token derived from them and then ends at once / after 250 ms / never / after incremental output; templates over {n} {q} {} or {f} and optionally {+}; '
+    rule='live sessions (tmux) with an instrumented preview command that logs its pid and arguments, prints three lines carrying a token derived from them and then ends at once / after 250 ms / never / after incremental output, or stays silent for 700 ms first; every template (at start and at each change-preview) draws which of {n} / {q} it refers to, item as {} or {f}, optionally {+}; '
          'histories of 3-16 steps (cursor moves, bursts of moves faster than a process starts, query edits, toggles, refresh-preview, toggle-preview, change-preview, change-preview-window) with gaps of 0-200 ms; exit by accept / abort / SIGTERM. '
-         'At quiescence: the command started last has exactly the arguments of the focused line / query / selection, its token is on the screen, no superseded run is alive; after exit no preview process and no temp file is left. '
+         'At quiescence: the command started last has exactly the arguments of the focused line / query / selection, every output line on the screen carries its token (none from an older run), no superseded run is alive; after exit no preview process and no temp file is left. '
          'non-trivial = a preview was superseded while it could still be running',
     assumptions=['timing is varied, not controlled; a state that stays wrong for 4 s without change is a violation, the 40 s cap otherwise'],
     units=[
